@@ -52,7 +52,11 @@ func evalC18(in []byte, srcOffs, tgtOffs, span int) (vs []*Violation, accepted b
 		se = int(u0.User.Offs + u0.User.Len)
 	}
 	if int(short.Offs) != 0 || int(short.Len) != se || se > le {
-		add("Short", "short-view-stops-at-host-port-prefix-of-long", "short", fmt.Sprintf("Short=%v want [0,%d) long end %d", short, se, le))
+		cl := "short"
+		if u0.URIType == sipsp.TELuri && bytes.IndexByte(in, '@') >= 0 {
+			cl = "tel-uri-with-userinfo"
+		}
+		add("Short", "short-view-stops-at-host-port-prefix-of-long", cl, fmt.Sprintf("Short=%v want [0,%d) long end %d", short, se, le))
 	}
 	ut := u0
 	ut.Truncate()
